@@ -1001,21 +1001,26 @@ func (p *H265Payloader) Payload(mtu uint16, payload []byte) [][]byte { //nolint:
 			// the nalu header is omitted from the fragmentation packet payload
 			nalu = nalu[h265NaluHeaderSize:]
 
-			if maxFUPayloadSize <= 0 || len(nalu) == 0 {
+			if len(nalu) == 0 {
 				return
 			}
 
-			// flush any buffered aggregation packets.
-			flushBufferedNals()
-
-			if len(nalu) <= maxFUPayloadSize {
-				// A NAL unit must not be transmitted in one FU (RFC 7798 4.4.3): a unit whose
-				// payload would fill a single fragment fits a single NAL unit packet.
+			if len(nalu) <= maxFUPayloadSize+1 {
+				// A NAL unit must not be transmitted in one FU (RFC 7798 4.4.3): a unit that
+				// fits a single NAL unit packet, which has no FU header, is sent as one.
+				flushBufferedNals()
 				bufferedNALUs = append(bufferedNALUs, wholeNALU)
 				flushBufferedNals()
 
 				return
 			}
+
+			if maxFUPayloadSize <= 0 {
+				return
+			}
+
+			// flush any buffered aggregation packets.
+			flushBufferedNals()
 
 			fullNALUSize := len(nalu)
 			for len(nalu) > 0 {
